@@ -15,6 +15,7 @@ import z3
 from contracts.unbounded import exp, inb, ints, records
 from pyvc import wp
 from pyvc.contract import Contract
+from pyvc.sym import UF
 
 MOD = "glotaran.builtin.megacomplexes.coherent_artifact.coherent_artifact_megacomplex"
 
@@ -107,6 +108,89 @@ def all_indices_spec():
     return wp.FnSpec(fn, params, requires, ("matrix",), ensures, {0: inv0}, ext)
 
 
+# ----------------------------------------------------------------------------- damped oscillation without IRF
+DO = "glotaran.builtin.megacomplexes.damped_oscillation.damped_oscillation_megacomplex"
+COS, SIN = UF["cos"], UF["sin"]
+
+
+def _even_odd(x):
+    """x as (sign, |x|) when x is a monomial with a negative coefficient (cos is even, sin is odd: cos(-y) = cos(y),
+    sin(-y) = -sin(y) - Mathlib `Real.cos_neg`, `Real.sin_neg`, re-checked in lemmas/FunctionAxioms.lean)."""
+    c, f = wp._split(wp._real(x))
+    if f and c < 0:
+        return -1, wp._build(-c, f)
+    return 1, wp._real(x)
+
+
+def cos_(x):
+    return COS(_even_odd(x)[1])
+
+
+def sin_(x):
+    sg, y = _even_odd(x)
+    return SIN(y) if sg > 0 else wp.rmul(-1, SIN(y))
+
+
+def cexp(z):
+    """exp of a complex number given as a pair of reals: exp(a + ib) = exp(a) cos(b) + i exp(a) sin(b)."""
+    if not isinstance(z, wp.Cx):
+        return exp(z)
+    if wp._is_zero(z.re):
+        return wp.Cx(cos_(z.im), sin_(z.im))  # exp(0) = 1
+    e = exp(z.re)
+    return wp.Cx(wp.rmul(e, cos_(z.im)), wp.rmul(e, sin_(z.im)))
+
+
+def ext_np_exp_complex(ex, st, args, kwargs, node):
+    (a,) = args
+    if isinstance(a, (wp.Arr, wp.View, wp.ColView, wp.LazyArr)) and a.ndim == 1:
+        heap_now = dict(st.heap)
+        return wp.LazyArr(a.shape, lambda i: cexp(a.sel(heap_now, i)))
+    return cexp(a)
+
+
+def ext_len(ex, st, args, kwargs, node):
+    (a,) = args
+    if not isinstance(a, (wp.Arr, wp.View, wp.ColView, wp.LazyArr)):
+        raise wp.Unsupported("len() of something that is not an array")
+    return a.shape[0]
+
+
+def oscillation_spec():
+    import importlib
+
+    fn = importlib.import_module(DO).calculate_damped_oscillation_matrix_no_irf
+    t, c = ints("t", "c")
+
+    def requires(env):
+        n = env.shape("frequencies")
+        return [env.shape("rates") == n, env.shape("matrix", 0) == env.shape("axis"), env.shape("matrix", 1) == 2 * n]
+
+    def cell(old, now, upto):
+        """columns k < upto hold exp(-rate_k t) cos(freq_k t), columns n + k hold -exp(-rate_k t) sin(freq_k t) - the
+        real and imaginary part of exp(-rate_k t - i freq_k t); every other cell is as it was."""
+        n, nt = old.shape("frequencies"), old.shape("axis")
+        RV = wp.RV
+        k = z3.If(c < n, c, c - n)
+        x = old.sel("axis", t)
+        damp = exp((-(RV(old.sel("rates", k)) * RV(x))).t)
+        phase = (RV(old.sel("frequencies", k)) * RV(x)).t
+        want = z3.If(c < n, wp.rmul(damp, COS(phase)), wp.rmul(-1, wp.rmul(damp, SIN(phase))))
+        done = z3.And(inb(t, nt), inb(c, 2 * n), k < upto)
+        return z3.ForAll([t, c], z3.If(done, now.sel("matrix", t, c) == want, now.sel("matrix", t, c) == old.sel("matrix", t, c)), patterns=[now.sel("matrix", t, c)])
+
+    def ensures(old, new, res):
+        return [("column_k_is_the_real_and_column_n_plus_k_the_imaginary_part_of_exp_minus_rate_k_t_minus_i_frequency_k_t", cell(old, new, old.shape("frequencies")))]
+
+    def inv0(old, now, i):
+        # the running column counter of the code is the number of oscillations done
+        counters = [v for nm, v in now._vars.items() if nm in ("idx",) and z3.is_expr(v)]
+        return [cell(old, now, i)] + [v == i for v in counters] + [now["number_of_oscillations"] == old.shape("frequencies")]
+
+    params = [("matrix", "arr2"), ("frequencies", "arr1"), ("rates", "arr1"), ("axis", "arr1")]
+    return wp.FnSpec(fn, params, requires, ("matrix",), ensures, {0: inv0}, {"np.exp": ext_np_exp_complex, "len": ext_len})
+
+
 class CoherentArtifactAllSizes(Contract):
     prop = "C07"
     name = "CoherentArtifactAllSizes"
@@ -139,6 +223,37 @@ class CoherentArtifactAllSizes(Contract):
             return {"matrix": np.zeros((ng, nt, order)), "centers": rng.uniform(-1, 1, ng), "widths": rng.uniform(0.2, 1, ng), "global_axis_size": int(ng), "model_axis": rng.uniform(-2, 2, nt), "order": order}
 
         return out + records(on_index_spec(), self.name, prefix="on_index.") + records(all_indices_spec(), self.name, prefix="all_indices.") + crosscheck(on_index_spec(), a1) + crosscheck(all_indices_spec(), a2)
+
+
+class OscillationKernelAllSizes(Contract):
+    """`calculate_damped_oscillation_matrix_no_irf` for every number of oscillations and time points: blocked layout
+    (cos block, then sin block, oscillation k in columns k and n + k), each pair the real and imaginary part of
+    exp(-rate_k t - i frequency_k t)."""
+
+    prop = "C07"
+    name = "OscillationKernelAllSizes"
+    target = f"{DO}:calculate_damped_oscillation_matrix_no_irf"
+    strength = "U"
+    trusted = (
+        *__import__('contracts.unbounded', fromlist=['WP_ASSUMPTIONS']).WP_ASSUMPTIONS,
+        "numba compiles the kernel with Python semantics; numpy contracts: elementwise arithmetic of 1-d arrays with real and complex scalars, np.exp elementwise on complex128 = (exp a cos b, exp a sin b) (lemmas/FunctionAxioms.lean ax_cexp_re/im), .real/.imag, `a[:, c] = v` column store, zip over 1-d arrays",
+        "exp, cos, sin uninterpreted (cos even, sin odd applied as a normal form: ax_cos_neg, ax_sin_neg); floats as reals; complex128 as a pair of reals",
+    )
+    drops = ("PyVC-U re-reads the kernel's source and drops the @nb.jit decorator; `for x, y in zip(a, b)` is read as `for k in range(min(len a, len b)): x, y = a[k], b[k]`",)
+
+    def cases(self, tier):
+        return iter(())
+
+    def static_obligations(self, tier):
+        import numpy as np
+
+        from contracts.unbounded import crosscheck
+
+        def args(rng, k):
+            n, nt = int(rng.integers(0, 4)), int(rng.integers(0, 4))
+            return {"matrix": rng.uniform(-1, 1, (nt, 2 * n)), "frequencies": rng.uniform(0.1, 3, n), "rates": rng.uniform(-0.5, 2, n), "axis": rng.uniform(-1, 3, nt)}
+
+        return records(oscillation_spec(), self.name, prefix="no_irf.") + crosscheck(oscillation_spec(), args)
 
 
 def _with_selftest(fn):
